@@ -78,9 +78,15 @@ class Node(fm.TimeComponent):
             if bad and bad[0] == i:
                 units = "s" if bad[1] == "units" else units
                 grid = fm.NoGrid(1) if bad[1] == "grid" else grid
-            self.inputs.add(name=f"in{i}", time=self.time, grid=grid, units=units)
+            if self.spec.get("late_in_info"):
+                self.inputs.add(name=f"in{i}")  # metadata handed in through try_connect(exchange_infos=...)
+            else:
+                self.inputs.add(name=f"in{i}", time=self.time, grid=grid, units=units)
         for j in range(self.nout):
-            self.outputs.add(name=f"out{j}", time=self.time, grid=fm.NoGrid(), units=self.units)
+            if self.spec.get("info_from_input") is not None and self.nin:
+                self.outputs.add(name=f"out{j}")  # metadata derived from an input at connect time
+            else:
+                self.outputs.add(name=f"out{j}", time=self.time, grid=fm.NoGrid(), units=self.units)
         pulls = [f"in{i}" for i in range(self.nin)] if self.spec.get("initial_pull", True) else []
         self.create_connector(pull_data=pulls)
 
@@ -90,7 +96,16 @@ class Node(fm.TimeComponent):
         deps = self.spec.get("push_deps")
         if deps is not None and any(self.connector.in_data.get(f"in{i}") is None for i in deps):
             push = {}  # initial state derived from some pulled inputs: publish only once they arrived
-        self.try_connect(start_time, push_data=push)
+        infos = {}
+        src = self.spec.get("info_from_input")
+        if src is not None and self.nin:
+            got = self.connector.in_infos.get(f"in{src}")
+            if got is not None:
+                infos = {f"out{j}": got.copy_with(units=self.units) for j in range(self.nout) if not self.connector.infos_pushed[f"out{j}"]}
+        ex = {}
+        if self.spec.get("late_in_info"):
+            ex = {f"in{i}": fm.Info(time=self.time, grid=fm.NoGrid(), units=self.in_units) for i in range(self.nin) if self.connector.in_infos[f"in{i}"] is None}
+        self.try_connect(start_time, exchange_infos=ex, push_infos=infos, push_data=push)
         if self.status == fm.ComponentStatus.CONNECTED:
             for name, d in self.connector.in_data.items():
                 if d is not None:
